@@ -427,6 +427,12 @@ func genHsReq(r *gen.R, u upCfg) *hsReq {
 			ol = []string{"http://evil.example.net"}
 			oc = cInvalid
 		}
+	case 3:
+		if mode != 1 {
+			// the same name on another port is another origin
+			ol = []string{"https://" + q.Host + []string{":8443", ":80", ":"}[r.Intn(3)]}
+			oc = cInvalid
+		}
 	}
 	switch u.CheckOrigin {
 	case 1:
